@@ -6,7 +6,7 @@ From ApolloVerif Require Import Base.Chars Lex.Item Lex.Spec Lex.Fun Lex.LexProo
   Parse.TrackerInst Parse.SilentInst Parse.EntryEnd Parse.Terminates Parse.Compose Parse.RefGrammar Parse.RefLib
   Parse.RefLenient Parse.RefLenientProofs Parse.RefLinkBase Parse.RefLinkLoops Parse.RefLinkType Parse.RefLinkValue
   Parse.RefLinkExec Parse.RefLinkSel Parse.RefLinkEntry Parse.RefLinkLex Parse.RefLinkDefs Parse.RefLinkTS
-  Parse.RefLinkDoc Parse.RefLinkTree Parse.RefLinkKinds.
+  Parse.RefLinkDoc Parse.RefLinkTree Parse.RefLinkKinds Parse.RefLenientEof.
 
 (* what the link assumes of an item list; every lex_all s satisfies it *)
 Definition rl_items_ok (items : list item) : Prop := Forall rl_item_ok items /\ eof_terminated items.
@@ -115,6 +115,15 @@ Proof.
   exists ts. split; [exact H1|]. split; [exact H2|]. intros Hk. apply rgl_field_set_not_known; assumption.
 Qed.
 
+(* the class of the field-set entry is empty as well: exactly a field set of the reference grammar *)
+Theorem rl_field_set_exact_reference : forall dbg rl s r, 0 < rl ->
+  parse_selection_set_items dbg rl (lex_all s) = POk r -> pr_errors r = [] ->
+  exists ts, rg_significant (lex_all s) = Some ts /\ rg_field_set ts = RgOk [].
+Proof.
+  intros dbg rl s r Hrl E He. destruct (rl_field_set_exact_source dbg rl s r Hrl E He) as (ts & H1 & _ & H3).
+  exists ts. split; [exact H1|]. apply H3. apply rgl_known_field_set_empty.
+Qed.
+
 Theorem rl_field_set_accepts_source : forall dbg rl s r ts,
   parse_selection_set_items dbg rl (lex_all s) = POk r -> rg_significant (lex_all s) = Some ts ->
   rg_field_set ts = RgOk [] -> rl_weight ts + 1 < rl -> pr_errors r = [].
@@ -123,16 +132,20 @@ Proof.
   apply rgl_field_set_of_reference. exact Hq.
 Qed.
 
-(* the witness of the known class for the field-set entry: `f(a)` *)
+(* the former witness of the known class of the field-set entry: `f(a)` (an argument without a value).  Since the
+   repair of argument() the model reports it; the relaxed grammar of before the repairs (rgl_parser_old) accepted it *)
 Definition rl_errs_of (o : poutcome presult) : option N :=
   match o with POk r => Some (N.of_nat (length (pr_errors r))) | _ => None end.
 Definition rl_field_set_witness : str := [102; 40; 97; 41].
 Definition rl_field_set_witness_tokens : list rg_token :=
   [(TkName, [102]); (TkLParen, [40]); (TkName, [97]); (TkRParen, [41])].
-Theorem rl_field_set_refuted :
-  rl_errs_of (parse_selection_set_items false 500 (lex_all rl_field_set_witness)) = Some 0 /\
+Definition rl_reports (o : poutcome presult) : bool :=
+  match rl_errs_of o with Some n => negb (N.eqb n 0) | None => false end.
+Theorem rl_field_set_repaired :
+  rl_reports (parse_selection_set_items false 500 (lex_all rl_field_set_witness)) = true /\
   rg_significant (lex_all rl_field_set_witness) = Some rl_field_set_witness_tokens /\
-  rg_field_set rl_field_set_witness_tokens = RgNo /\ rgl_known_field_set rl_field_set_witness_tokens = true.
+  rg_field_set rl_field_set_witness_tokens = RgNo /\ rgl_known_field_set rl_field_set_witness_tokens = false /\
+  rgl_whole (rgl_field_set rgl_parser_old) rl_field_set_witness_tokens = true.
 Proof. repeat split; vm_compute; reflexivity. Qed.
 
 (* ================================================================== C05: Parser::parse *)
@@ -200,6 +213,17 @@ Proof.
   - intros (ds & Hq). eapply rl_document_accepts_source; eauto. apply rgl_sub_document. exact Hq.
 Qed.
 
+(* since four of the five leniencies were repaired, what the parser accepts is a Document of the grammar with ONE
+   relaxation (a root operation type definition without its named type): Parse/RefLenientEof.v shows that the other
+   relaxation left in rgl_parser, a list value ending at the end of the tokens, never shows in a whole document *)
+Theorem rl_document_exact_rootop_only : forall dbg rl s r,
+  parse_document_items dbg rl (lex_all s) = POk r -> pr_errors r = [] ->
+  exists ts ds, rg_significant (lex_all s) = Some ts /\ rgl_document rgl_rootop_only ts = Some ds.
+Proof.
+  intros dbg rl s r E He. destruct (rl_document_exact_source dbg rl s r E He) as (ts & ds & Hs & Hq).
+  exists ts, ds. split; [exact Hs|]. apply rgl_parser_document_is_rootop_only. exact Hq.
+Qed.
+
 (* the reference never accepts what the parser reports: whatever the class *)
 Theorem rl_document_reference_accepted : forall dbg rl s r ts ds,
   parse_document_items dbg rl (lex_all s) = POk r ->
@@ -213,11 +237,18 @@ Theorem rl_document_definitions_agree : forall ts ds ds',
   rg_document ts = Some ds -> rgl_document rgl_parser ts = Some ds' -> ds' = ds.
 Proof. intros ts ds ds' H1 H2. rewrite (rgl_sub_document rgl_parser _ _ H1) in H2. congruence. Qed.
 
-(* ---- the five known leniencies, each with its witness: parsed without error by the model, rejected by the
+(* ---- the remaining known leniency with its witness: parsed without error by the model, rejected by the
         reference, inside the class rgl_known_document *)
 Definition rl_known_witness (src : str) : Prop :=
   rl_errs_of (parse_document_items false 500 (lex_all src)) = Some 0 /\
   exists ts, rg_significant (lex_all src) = Some ts /\ rg_document ts = None /\ rgl_known_document ts = true.
+(* ---- the four repaired ones: each witness is now reported by the model, the reference rejects it, it is outside
+        the class rgl_known_document, and the relaxed grammar of before the repairs (rgl_parser_old, every
+        relaxation on) accepted it *)
+Definition rl_repaired_witness (src : str) : Prop :=
+  rl_reports (parse_document_items false 500 (lex_all src)) = true /\
+  exists ts, rg_significant (lex_all src) = Some ts /\ rg_document ts = None /\ rgl_known_document ts = false /\
+             rgl_document rgl_parser_old ts <> None.
 
 Definition rl_w_argument_without_value : str := [123;32;102;40;97;41;32;125].                        (* { f(a) } *)
 Definition rl_w_object_field_without_value : str := [123;32;102;40;120;58;32;123;97;125;41;32;125].  (* { f(x: {a}) } *)
@@ -228,15 +259,20 @@ Definition rl_w_description_before_fragment : str :=
 Definition rl_w_schema_extension_empty_block : str :=
   [101;120;116;101;110;100;32;115;99;104;101;109;97;32;64;100;32;123;32;125].                        (* extend schema @d { } *)
 
+Ltac rl_repaired := split; [vm_compute; reflexivity|]; eexists; split; [vm_compute; reflexivity|];
+  split; [vm_compute; reflexivity|]; split; [vm_compute; reflexivity|]; vm_compute; discriminate.
+
 Ltac rl_witness := split; [vm_compute; reflexivity|]; eexists; split; [vm_compute; reflexivity|]; split; vm_compute; reflexivity.
 
-Theorem rl_document_refuted :
-  rl_known_witness rl_w_argument_without_value /\ rl_known_witness rl_w_object_field_without_value /\
-  rl_known_witness rl_w_root_operation_without_type /\ rl_known_witness rl_w_description_before_fragment /\
-  rl_known_witness rl_w_schema_extension_empty_block.
+Theorem rl_document_refuted : rl_known_witness rl_w_root_operation_without_type.
+Proof. unfold rl_known_witness. rl_witness. Qed.
+
+Theorem rl_document_repaired :
+  rl_repaired_witness rl_w_argument_without_value /\ rl_repaired_witness rl_w_object_field_without_value /\
+  rl_repaired_witness rl_w_description_before_fragment /\ rl_repaired_witness rl_w_schema_extension_empty_block.
 Proof.
-  unfold rl_known_witness.
-  split; [rl_witness|]. split; [rl_witness|]. split; [rl_witness|]. split; [rl_witness|]. rl_witness.
+  unfold rl_repaired_witness.
+  split; [rl_repaired|]. split; [rl_repaired|]. split; [rl_repaired|]. rl_repaired.
 Qed.
 
 (* ================================================================== C05: the definitions in the tree (kinds) *)
